@@ -35,6 +35,11 @@ func errOf(name string) error {
 type Content struct {
 	Candidates []string `json:"candidates"` // hex, usually 32 bytes each
 	TailSeed   uint64   `json:"tail_seed"`
+	// Flood > 0: the stream starts with this many unusable 32-byte candidates (all 0xff, or
+	// all zero for FloodZero) before anything else; they are generated on the fly, so a
+	// source that is stuck for hundreds of megabytes costs no memory
+	Flood     int  `json:"flood,omitempty"`
+	FloodZero bool `json:"flood_zero,omitempty"`
 }
 
 func (c Content) Prefix() []byte {
@@ -67,20 +72,39 @@ type Device struct {
 	longDone       map[int]bool
 	reads          int
 	Log            *core.Log
+	flood          int // bytes
+	floodByte      byte
 }
 
 func New(c Content, program []Step, log *core.Log) *Device {
-	return &Device{prefix: c.Prefix(), tail: core.NewRand(c.TailSeed ^ 0x5eed), program: program, Fired: map[string]int{}, Log: log}
+	d := &Device{prefix: c.Prefix(), tail: core.NewRand(c.TailSeed ^ 0x5eed), program: program, Fired: map[string]int{}, Log: log}
+	if c.Flood > 0 {
+		d.flood, d.floodByte = 32*c.Flood, 0xff
+		if c.FloodZero {
+			d.floodByte = 0
+		}
+	}
+	return d
 }
 
 func (d *Device) next(n int) []byte {
-	for len(d.prefix)+len(d.tailBuf) < d.Delivered+n {
+	out := make([]byte, n)
+	if d.Delivered+n <= d.flood {
+		if d.floodByte != 0 {
+			for i := range out {
+				out[i] = d.floodByte
+			}
+		}
+		return out
+	}
+	for d.flood+len(d.prefix)+len(d.tailBuf) < d.Delivered+n {
 		d.tailBuf = append(d.tailBuf, d.tail.Bytes(64)...)
 	}
-	out := make([]byte, n)
 	for i := 0; i < n; i++ {
-		p := d.Delivered + i
-		if p < len(d.prefix) {
+		p := d.Delivered + i - d.flood
+		if p < 0 {
+			out[i] = d.floodByte
+		} else if p < len(d.prefix) {
 			out[i] = d.prefix[p]
 		} else {
 			out[i] = d.tailBuf[p-len(d.prefix)]
@@ -97,7 +121,7 @@ const MaxCalls = 100000
 func (d *Device) Read(p []byte) (int, error) {
 	call := d.Calls
 	d.Calls++
-	if d.Calls > MaxCalls+64*len(d.program)+len(d.prefix) {
+	if d.Calls > MaxCalls+64*len(d.program)+len(d.prefix)+d.flood {
 		panic("randomness device: far more reads by one call than its stream and fault program can explain: the call does not terminate")
 	}
 	if d.failed != nil {
@@ -194,6 +218,9 @@ func (d *Device) Read(p []byte) (int, error) {
 }
 
 func (d *Device) log(f string, a ...interface{}) {
+	if d.flood > 0 && d.Delivered > 64 && d.Delivered < d.flood-64 {
+		return // inside the flood: millions of identical reads are not logged one by one
+	}
 	if d.Log != nil {
 		d.Log.Add("rng "+f, a...)
 	}
